@@ -35,9 +35,10 @@ def confirm(a, b, name, sy, word):
     return {"word": s, "A_accepts": a.accepts_input(s), "B_accepts": b.accepts_input(s)}
 
 
-def hk_trace_problems(ctx, a, b, ta, tb, sy, eq_outcome):
+def hk_trace_prepare(a, b, ta, tb, sy):
+    """Run a == b under the spy; return (wire item for the mirror model under the observed schedule, judge)."""
     if a.input_symbols != b.input_symbols:
-        return []
+        return None, None
     sta, stb = enc.Renum(enc.dfa_names(a)), enc.Renum(enc.dfa_names(b))
 
     def el(e):
@@ -47,25 +48,31 @@ def hk_trace_problems(ctx, a, b, ta, tb, sy, eq_outcome):
     got, rec = hkspy.observe_eq(a, b)
     order = [sy(c) for c in a.input_symbols]
     ties = [[el(x), el(y)] for x, y in rec.first_wins]
-    m_res, m_log = ctx.driver.batch([(6, 4, enc.tree([ta, tb, order, ties]))])[0]
-    m_res = enc.dec_res(m_res)
-    want = ("ok", m_res[1] == 1) if m_res[0] == "ok" else ("err", m_res[1])
     calls = [[el(x), el(y)] for x, y in rec.calls]
-    out = []
-    if got[:2] != want or got[:2] != eq_outcome[:2]:
-        out.append(f"eq under the observed schedule: impl {got} (unobserved run {eq_outcome}) mirror model {want}")
-    if calls != m_log:
-        out.append(f"union-find calls differ from the mirror model's: impl {calls} model {m_log}")
-    ctx.tally("hk_trace_compared")
-    ctx.tally(f"hk_unions_{min(len(calls), 6)}{'+' if len(calls) >= 6 else ''}")
-    return out
+
+    def judge(ctx, answer, eq_outcome):
+        m_res, m_log = answer
+        m_res = enc.dec_res(m_res)
+        want = ("ok", m_res[1] == 1) if m_res[0] == "ok" else ("err", m_res[1])
+        out = []
+        if got[:2] != want or got[:2] != eq_outcome[:2]:
+            out.append(f"eq under the observed schedule: impl {got} (unobserved run {eq_outcome}) mirror model {want}")
+        if calls != m_log:
+            out.append(f"union-find calls differ from the mirror model's: impl {calls} model {m_log}")
+        ctx.tally("hk_trace_compared")
+        ctx.tally(f"hk_unions_{min(len(calls), 6)}{'+' if len(calls) >= 6 else ''}")
+        return out
+
+    return (6, 4, enc.tree([ta, tb, order, ties])), judge
 
 
 def check_pair(ctx, adef, bdef, tag):
     a, b = mk_dfa(adef), mk_dfa(bdef)
     sy = enc.SymMap(a.input_symbols | b.input_symbols)
     ta, tb = enc.enc_dfa(a, None, sy), enc.enc_dfa(b, None, sy)
-    ans, cmp_, hk = ctx.driver.batch([(6, 1, enc.tree([ta, tb])), (0, 1, enc.tree([ta, tb])), (6, 3, enc.tree([ta, tb]))])
+    trace_item, trace_judge = hk_trace_prepare(a, b, ta, tb, sy)
+    ans, cmp_, hk, *trace_ans = ctx.driver.batch([(6, 1, enc.tree([ta, tb])), (0, 1, enc.tree([ta, tb])),
+                                                  (6, 3, enc.tree([ta, tb]))] + ([trace_item] if trace_item else []))
     got = impl_answers(a, b)
     problems = []
     # == against the mirror model of DFA.__eq__ (Hopcroft-Karp as coded), under two schedules
@@ -77,7 +84,7 @@ def check_pair(ctx, adef, bdef, tag):
     ctx.tally("hk_mirror_compared")
     # the run of the loop itself: the union calls seen by a spy on networkx's UnionFind against the mirror model
     # driven by the schedule the implementation actually used (symbol iteration order, tie-breaks)
-    trace_problems = hk_trace_problems(ctx, a, b, ta, tb, sy, got[0])
+    trace_problems = trace_judge(ctx, trace_ans[0], got[0]) if trace_item else []
     for name, g, m in zip(NAMES, got, ans):
         m = enc.dec_res(m)
         want = ("ok", m[1] == 1) if m[0] == "ok" else ("err", m[1])
